@@ -47,13 +47,15 @@ CLAIMED = {
             'slices, padR undefined slices, and to fail only when every output slice is undefined; per-variant formulas follow. The closed-form variants '
             'of the model are compared with pyerrors on central values; every variant incl. the cosh/sinh root variants and plateau fit/average is '
             'checked on the implementation against the documented formula applied with Obs arithmetic (root variants: bisection + implicit derivative).',
-            'Lean kernel; standard axioms; fsolve inside find_root by contract (residual measured); least_squares for plateau(fit) by contract; generator-bounded search.', '5 C15'),
+            'Lean kernel; standard axioms; fsolve inside find_root by contract (residual measured); least_squares for plateau(fit) by contract; generator-bounded search. '
+            'Known finding meff-root-no-real-solution (genuine: where the ratio equation has no real solution the root variants return the last iterate of the failed search instead of an undefined timeslice; the pinned suite requires it), printed as KNOWN-FINDING on every run.', '5 C15'),
     'C19': ('exact rational model of _format_uncertainty in Lean compared string-for-string with CPython + Lean theorems on rounding / read-back bounds + statement oracle in exact Fractions',
             'Proof: rounding to n decimals (ties to even) is within half a unit; value and error read back from the printed form are within half a '
             'unit of the last printed digit in all three branches (plus the 2^-53 relative rounding of the one floating-point product), the number of '
             'significant digits shown is sig (sig+1 after a carry). The model runs in exact rational arithmetic and must reproduce str/format of the '
             'implementation character by character on every generated case; the read-back clause is also evaluated directly on the implementation.',
-            'Lean kernel; standard axioms; np.floor(np.log10(d)) enters as an input with a checked contract; CPython float formatting / parsing trusted.', '5 C19'),
+            'Lean kernel; standard axioms; np.floor(np.log10(d)) enters as an input with a checked contract; CPython float formatting / parsing trusted. '
+            'Known finding zero-within-error-absolute-tolerance (genuine: is_zero_within_error short-circuits through is_zero() below 1e-10; the pinned suite relies on it), printed as KNOWN-FINDING on every run.', '5 C19'),
     'C04': ('Lean 4 theorems about the constructor / normalisation / propagation models (invariant established, malformed requests rejected, invariant preserved by derived_observable, correlate, merge_obs and reweight) + invariant evaluated by the Lean driver and by an independent python predicate on every object the implementation returns + exhaustive operand-kind table',
             'Proof: the constructor model (check by check as in Obs.__init__) establishes the invariant and rejects each listed malformed request, the '
             'configuration-list normalisation yields a range exactly when equally spaced, and derived_observable preserves the invariant (theorem list in '
@@ -139,7 +141,8 @@ CLAIMED = {
             '+f(b) in the upper and -f(a) in the lower limit and, for the families used, the integral of df/dp in a parameter; the gradient list is ordered '
             'parameters then limits. The model of derived_observable with the caller\'s gradient is run on every case and compared with pyerrors, and the '
             'closed-form inverse / antiderivative is applied to the inputs by configuration number and compared in value and every fluctuation.',
-            'Lean kernel; standard axioms; scipy fsolve / quad and autograd jacobians by contract (residuals measured each run); generator-bounded search.', '5 C09'),
+            'Lean kernel; standard axioms; scipy fsolve / quad and autograd jacobians by contract (residuals measured each run); generator-bounded search. '
+            'Known finding find-root-no-convergence-check (genuine: from the default start value with the root far away the last iterate is returned as the root), printed as KNOWN-FINDING on every run.', '5 C09'),
     'C10': ('Lean 4 theorems (product rule of the matrix product, real block embedding of complex matrices is a ring homomorphism compatible with inverse, first-order identities characterising the propagated inverse / Cholesky factor / determinant / symmetric eigenpairs / pseudo-inverse, second-order jackknife remainder) + derived_observable model correspondence + identity oracle in Obs arithmetic',
             'Proof: d(AB) = dA B + A dB entrywise for any shapes; [[A,-B],[B,A]] embeds complex matrices as a ring homomorphism that commutes with inversion; '
             'dB = -A^-1 dA A^-1 is the unique solution of dA B + A dB = 0, dL L^T + L dL^T = dA determines the Cholesky factor\'s variation uniquely, '
